@@ -89,9 +89,11 @@ def closed_by_value(chain):
     for i, seg in enumerate(chain):
         a = seg[-1]
         b = chain[(i + 1) % n][0]
-        if a[0] != b[0] or a[1] != b[1]:
-            return False
-        if type(a[0]) is not type(b[0]) or type(a[1]) is not type(b[1]):
+        if a[0] == b[0] and a[1] == b[1]:
+            continue
+        # two distinct point objects at a junction (a degree-reduced segment gets re-fitted end
+        # points): closed within the library's own point equality (1e-9)
+        if abs(float(a[0]) - float(b[0])) > 1e-9 or abs(float(a[1]) - float(b[1])) > 1e-9:
             return False
     return True
 
